@@ -205,6 +205,7 @@ func (p *IGMPv3Query) UnmarshalBinary(data []byte) error {
 	if len(data) < 12+int(p.NumberOfSources)*4 {
 		return fmt.Errorf("The []byte is too short to unmarshal a full IGMPv3Query message.")
 	}
+	p.SourceAddresses = nil // a used value must not keep the sources of an earlier query
 	for j := 0; j < int(p.NumberOfSources); j++ {
 		p.SourceAddresses = append(p.SourceAddresses, data[n:n+4])
 		n += 4
@@ -305,6 +306,8 @@ func (p *IGMPv3GroupRecord) UnmarshalBinary(data []byte) error {
 	if len(data) < 8+int(p.AuxDataLen)*4+int(p.NumberOfSources)*4 {
 		return fmt.Errorf("The []byte is too short to unmarshal a full IGMPv3GroupRecord message.")
 	}
+	// a used value must not keep the sources and auxiliary data of an earlier record
+	p.SourceAddresses, p.AuxData = nil, nil
 	for i := uint16(0); i < p.NumberOfSources; i++ {
 		p.SourceAddresses = append(p.SourceAddresses, data[n:n+4])
 		n += 4
@@ -412,6 +415,7 @@ func (p *IGMPv3MembershipReport) UnmarshalBinary(data []byte) error {
 	n += 2
 	p.NumberOfGroups = binary.BigEndian.Uint16(data[n:])
 	n += 2
+	p.GroupRecords = nil // a used value must not keep the records of an earlier report
 	for i := uint16(0); i < p.NumberOfGroups; i++ {
 		gr := new(IGMPv3GroupRecord)
 		if err := gr.UnmarshalBinary(data[n:]); err != nil {
